@@ -49,11 +49,12 @@ RECURSIVE Gcd(_, _)
 Gcd(a, b) == IF b = 0 THEN a ELSE Gcd(b, a % b)
 Abs(n) == IF n < 0 THEN -n ELSE n
 MkFl(n, d) == LET g == Gcd(Abs(n), Abs(d)) s == IF d < 0 THEN -1 ELSE 1 IN Fl(s * (n \div g), s * (d \div g))
+\* powers are capped WHILE they are computed (TLC's integers are 32-bit; an overflow is a TLC error, not a wrap-around)
 RECURSIVE PowI(_, _)
-PowI(a, b) == IF b = 0 THEN 1 ELSE a * PowI(a, b - 1)
+PowI(a, b) == IF b = 0 THEN 1 ELSE LET r == PowI(a, b - 1) IN IF r > 40000 \/ r < -40000 THEN 50000 ELSE a * r
 DivE(a, b) == IF b > 0 THEN (IF a >= 0 THEN a \div b ELSE -((-a + b - 1) \div b))
               ELSE -(IF a >= 0 THEN a \div (-b) ELSE -((-a + (-b) - 1) \div (-b)))
-Big(n) == n > 100000 \/ n < -100000
+Big(n) == n > 40000 \/ n < -40000
 \* code points of the characters that can occur in compared strings
 CharOrd(c) == CASE c = "-" -> 45 [] c = "D" -> 68 [] c = "a" -> 97 [] c = "b" -> 98 [] c = "c" -> 99
                 [] \E i \in 1..10 : <<"0", "1", "2", "3", "4", "5", "6", "7", "8", "9">>[i] = c
@@ -89,7 +90,7 @@ Apply(o, a, b) ==
          ELSE IF Big(a.v) \/ Big(b.v) THEN Unspec
          ELSE LET r == CASE o = "+" -> a.v + b.v [] o = "-" -> a.v - b.v [] o = "*" -> a.v * b.v
                          [] o = "//" -> DivE(a.v, b.v) [] o = "%" -> a.v - DivE(a.v, b.v) * b.v
-                         [] o = "**" -> IF Abs(a.v) <= 1 \/ b.v <= 5 THEN PowI(a.v, b.v) ELSE 1000000
+                         [] o = "**" -> PowI(a.v, b.v)
               IN IF Big(r) THEN Unspec ELSE Ok(I(r))
     [] o = "/" -> IF ~IsNum(a) \/ ~IsNum(b) THEN Err
                   ELSE IF a.t = "flt" \/ b.t = "flt" THEN Unspec
@@ -176,7 +177,9 @@ Unp(e) ==
 RECURSIVE UnpFull(_)
 \* Well-formedness beyond the table: the grammar refuses a prefix operator directly as the right operand of `~`
 RECURSIVE WF(_)
-WF(e) == CASE e.k = "bin" -> WF(e.l) /\ WF(e.r) /\ ~(e.o = "~" /\ e.r.k = "un" /\ e.r.o \in Prefix)
+\* (`not in` and `is not` are negations too: the parser builds them as a `not` around `in` / `is`)
+Negated(e) == (e.k = "un" /\ e.o \in Prefix \cup {"isnot_defined", "isnot_odd"}) \/ (e.k = "bin" /\ e.o = "notin")
+WF(e) == CASE e.k = "bin" -> WF(e.l) /\ WF(e.r) /\ ~(e.o = "~" /\ Negated(e.r))
            [] e.k = "un" -> WF(e.e) [] e.k = "tern" -> WF(e.c) /\ WF(e.a) /\ WF(e.b) [] OTHER -> TRUE
 UnpFull(e) == CASE e.k \in {"lit", "var", "cst"} -> Leaf(e)
                 [] e.k = "un" /\ e.o \in Prefix -> <<"(">> \o Tok(e.o) \o UnpFull(e.e) \o <<")">>
